@@ -290,7 +290,7 @@ func runCell(c *vk.Ctx, ce cell, i int) {
 		}
 	}
 	c.Count("followups_checked", 1)
-	if c.WantSample() && i%97 == 3 {
+	if c.WantSample() && i%97 == 3 && len(res.Outs) > 0 {
 		c.Sample(map[string]interface{}{"cell": desc, "message": vk.Trunc(fixref.Pretty(msg), 200), "reject": vk.Trunc(fixref.Pretty(res.Outs[0].Raw), 200)})
 	}
 }
